@@ -1906,6 +1906,7 @@ fn judge_station_c19(rep: &mut Report, ps: &mut Parsers, out: &Outcome, sti: usi
                 let Some(info) = up.get_mut(&addr) else {
                     rep.count("unjudged:e2e-route-monitoring-without-peer-up");
                     if rep.params.flag("trace") {
+                        eprintln!("[peer-msgs] {:?}", st.msgs.iter().enumerate().filter_map(|(i, (_, m))| match m { StMsg::PeerUp { hdr, rport, .. } => Some(format!("#{} up {} t{} rport {}", i, hdr.addr(), hdr.ptype, rport)), StMsg::PeerDown { hdr, reason, .. } => Some(format!("#{} down {} r{}", i, hdr.addr(), reason)), _ => None }).collect::<Vec<_>>());
                         eprintln!("[rm-without-peer-up] station #{} policy={} connect_step={} msg#{} peer={} flags={:02x} pdu={} prev={:?} steps={:?}", sti, pol, st.connect_step, mi, addr, hdr.flags, hex(&pdu[..pdu.len().min(60)]), st.msgs[mi.saturating_sub(3)..mi].iter().map(|(_, m)| match m { StMsg::PeerUp { hdr, .. } => format!("up {}", hdr.addr()), StMsg::PeerDown { hdr, .. } => format!("down {}", hdr.addr()), StMsg::Route { hdr, .. } => format!("rm {} {:02x}", hdr.addr(), hdr.flags), _ => "other".into() }).collect::<Vec<_>>(), out.steps);
                     }
                     continue;
